@@ -191,3 +191,74 @@ fn c10_table_definition_codec() {
     core::mem::forget(def);
     core::mem::forget(def0);
 }
+
+
+// ---- C17: a composite containing a user-defined type never aliases the built-in composite ----------
+
+#[derive(Debug)]
+struct UserU32;
+
+impl crate::Value for UserU32 {
+    type SelfType<'a> = u32;
+    type AsBytes<'a> = [u8; 4];
+    fn fixed_width() -> Option<usize> {
+        Some(4)
+    }
+    fn from_bytes<'a>(data: &'a [u8]) -> u32
+    where
+        Self: 'a,
+    {
+        !u32::from_le_bytes([data[0], data[1], data[2], data[3]])
+    }
+    fn as_bytes<'a, 'b: 'a>(value: &'a u32) -> [u8; 4]
+    where
+        Self: 'b,
+    {
+        (!*value).to_le_bytes()
+    }
+    fn type_name() -> TypeName {
+        // a user type deliberately named like a built-in
+        TypeName::new("u32")
+    }
+}
+
+impl crate::Key for UserU32 {
+    fn compare(a: &[u8], b: &[u8]) -> core::cmp::Ordering {
+        a.cmp(b)
+    }
+}
+
+fn names_differ<A: Value, B: Value>() {
+    let a = A::type_name();
+    let b = B::type_name();
+    assert!(a != b, "a composite with a user-defined element has a different stored identity than the built-in one");
+    assert!(!a.matches_legacy(&b) || a.is_user_defined(), "and is not accepted through the legacy spelling of the built-in");
+    core::mem::forget(a);
+    core::mem::forget(b);
+}
+
+// @harness props=C17 tier=quick timeout=1500 mem=16 replay=native
+// @desc a tuple that contains a user-defined type named like a built-in ("u32"), in ANY position, is classified user-defined: its stored type name differs from the same-spelled built-in tuple's, so check_match refuses to open one as the other (in both directions, as key or as value) instead of reinterpreting the bytes
+// @functions tuple type_name_impl! (2- and 3-tuples), TypeName::{into_composite,eq,is_user_defined}, InternalTableDefinition::check_match
+// @bound tuples (User,u64), (u64,User), (u8,User,u8), (u8,u8,User) against their built-in spellings; no symbolic input (names are constants of the code)
+#[kani::proof]
+#[kani::unwind(16)]
+fn c17_user_tuple_never_aliases_builtin() {
+    names_differ::<(UserU32, u64), (u32, u64)>();
+    names_differ::<(u64, UserU32), (u64, u32)>();
+    names_differ::<(u8, UserU32, u8), (u8, u32, u8)>();
+    names_differ::<(u8, u8, UserU32), (u8, u8, u32)>();
+    assert!(<(u64, UserU32) as Value>::type_name().is_user_defined());
+    // and through the gate itself: a stored (u64,u32) table is not opened as (u64,UserU32)
+    let def = mk_def(false, Some(8), Some(12), 1, 1, <u64 as Value>::type_name(), <(u64, u32) as Value>::type_name());
+    let r = def.check_match::<u64, (u64, UserU32)>(TableType::Normal, "t");
+    assert!(matches!(r, Err(TableError::TableTypeMismatch { .. })), "refused with TableTypeMismatch");
+    let def2 = mk_def(false, Some(8), Some(12), 1, 1, <u64 as Value>::type_name(), <(u64, UserU32) as Value>::type_name());
+    let r2 = def2.check_match::<u64, (u64, u32)>(TableType::Normal, "t");
+    assert!(matches!(r2, Err(TableError::TableTypeMismatch { .. })));
+    kani::cover!(true, "compared");
+    core::mem::forget(r);
+    core::mem::forget(r2);
+    core::mem::forget(def);
+    core::mem::forget(def2);
+}
